@@ -8,8 +8,8 @@
    the serialised pre-state under explicit premises on the pre-executed state — [partial]. *)
 From Coq Require Import List NArith Bool.
 Import ListNotations.
-From HV Require Import Model.Parse Model.Exec Model.Opt Model.Compile Proofs.OptSpec Proofs.CompSpec Proofs.CoroSpec Proofs.Comp2Spec.
-From HV Require Proofs.CompProofs Proofs.CompLevel2.
+From HV Require Import Model.Parse Model.Exec Model.Opt Model.Compile Proofs.OptSpec Proofs.CompSpec Proofs.CoroSpec Proofs.Comp2Spec Proofs.Comp3Spec.
+From HV Require Proofs.CompProofs Proofs.CompLevel2 Proofs.Comp3Proofs.
 Open Scope N_scope.
 
 (* the generated if/else tree runs block i and only it when state = i, for every number of blocks *)
@@ -69,6 +69,25 @@ Theorem C03_compiled_level2_complete_partial : forall s log rest input fuel, res
   end.
 Proof. exact CompLevel2.compiled2_complete. Qed.
 Print Assumptions C03_compiled_level2_complete_partial.
+
+(* ... and for what the optimiser actually returns those premises hold (every interpreter step keeps jump targets on
+   area-carrying commands, stack keys unique and stored numbers well-formed), so: for every program, the level-2 emitted
+   program behaves like `hyeong run -O2` resumed after pre-execution — the single premise left is that no NaN of negative
+   sign sits on a pre-executed stack *)
+Theorem C03_interpreter_invariants : forall code c pc s, nth_error code (N.to_nat pc) = Some c -> small_code code ->
+  area_targets code s -> stacks_wf s -> input_small s ->
+  match execute_one c pc s with ROk _ t | RExit _ t | RErr _ t => area_targets code t /\ stacks_wf t /\ input_small t end.
+Proof. exact Comp3Proofs.step_inv. Qed.
+Print Assumptions C03_interpreter_invariants.
+Theorem C03_compiled_level2_of_optimized_partial : forall code input r fuel, small_code (map xcode_of_ucode code) ->
+  optimize_prog all_fixed code 2 [] = OptOk r -> orest r <> [] -> no_neg_nan (ostate r) ->
+  match run_inc fuel (olog r) (orest r) (with_input (ostate r) input) with
+  | FFuel _ _ => True
+  | FPanic _ => True
+  | x => exists fuel', ibeh (ir_run fuel' (build_ir true 2 (ostate r) (olog r) (orest r)) input) = beh x
+  end.
+Proof. exact Comp3Proofs.compiled2_optimized. Qed.
+Print Assumptions C03_compiled_level2_of_optimized_partial.
 
 (* the pinned compiler (before fix 7d19713) resumed a level-2 program at the wrong block; the repaired one agrees
    with the interpreter on the witness *)
